@@ -69,7 +69,7 @@ def gen_term(r):
         v = r.choice(["0", "5", "42", "-3", "+7", "2.5", "-0.25", ".5", "10.", "007", "1000000", "3.0", "-.5"])
         return {"k": "term", "t": "num", "v": v}
     # regex terms, with the escapes docs/terms.md documents (a slash inside a regex is written \\/)
-    body = "".join(r.choice(["a", "b", "c", ".", "+", "*", "?", "[", "]", "(", ")", "^", "$", "|", "0", "1", "9", " ",
+    body = "".join(r.choice(["a", "b", "c", ".", "+", "*", "?", "[", "]", "(", ")", "^", "$", "|", "0", "1", "9", " ", "~", "~", '"', "#",
                              "\\d", "\\/", "\\.", "\\\\", "\\s"]) for _ in range(r.randint(1, 6)))
     return {"k": "term", "t": "regex", "v": "/" + body + "/"}
 
